@@ -579,6 +579,11 @@ func (res *Response) flush(conn io.Writer) error {
 		}
 		pdata = mempool.AppendString(pdata, "0\r\n")
 		for k, v := range res.trailer {
+			// the value of a declared trailer may be set after the head
+			// has been encoded, as with the std http.ResponseWriter.
+			if v == "" {
+				v = res.header.Get(k)
+			}
 			pdata = mempool.AppendString(pdata, k)
 			pdata = mempool.AppendString(pdata, ": ")
 			pdata = mempool.AppendString(pdata, v)
